@@ -192,12 +192,17 @@ def random_past(rng, D):
 
 
 def mk(D, s):
-    return Dataset.from_raw_list([[set(b) for b in r] for r in D]), ScoringScheme(s)
+    """dataset + scheme of a case; the case context (gen.CURRENT) may rename the elements and give the dataset a past"""
+    ds = Dataset.from_raw_list([[{gen.fwd(e) for e in b} for b in r] for r in D])
+    sc = ScoringScheme(s)
+    if gen.CURRENT.get("_past"):
+        give_a_past(ds, gen.CURRENT["_past"], sc)
+    return ds, sc
 
 
 def lst(r):
-    return [[e.value for e in b] for b in r.buckets]
+    return [[gen.back(e.value) for e in b] for b in r.buckets]
 
 
 def groups(p):
-    return [[e.value for e in g] for g in p]
+    return [[gen.back(e.value) for e in g] for g in p]
